@@ -26,7 +26,7 @@ def enter(t, m=None, o=None):
 
 
 def ex(t, exc=False):
-    return {"cmd": "exit", "t": t, "v": "exc" if exc else ""}
+    return {"cmd": "exit", "t": t, "v": exc if isinstance(exc, str) else ("exc" if exc else "")}
 
 
 PINNED = [
@@ -34,6 +34,9 @@ PINNED = [
     [enter("w", M(VG="DEL"), M(VU="o1")), {"cmd": "set", "t": "main", "k": "VG", "v": "v2"}, ex("w", True), {"cmd": "detype", "t": "w"}],
     [enter("main", M(VU="s1")), {"cmd": "del", "t": "main", "k": "VU"}, ex("main")],
     [enter("main", M(VG="s1")), enter("main", M(VG="DEL")), enter("main", E(), M(VG="o1")), ex("main"), ex("main", True), ex("main"), {"cmd": "set", "t": "w", "k": "VG", "v": "v2"}, {"cmd": "detype", "t": "main"}],
+    [enter("main", M(VG="s1"), M(VU="o1")), enter("main", M(VD="DEL")), ex("main", "sysexit"), ex("main", "sysexit"), {"cmd": "detype", "t": "main"}],
+    [enter("main", M(VG="s1")), {"cmd": "inherit", "t": "w", "v": "main"}, {"cmd": "respawn", "t": "w"}, {"cmd": "detype", "t": "w"}, ex("main")],
+    [enter("w", M(VU="s1")), ex("w"), enter("main", M(VG="s1")), {"cmd": "inherit", "t": "w", "v": "main"}, ex("main"), {"cmd": "respawn", "t": "w"}, {"cmd": "set", "t": "w", "k": "VG", "v": "v2"}, {"cmd": "detype", "t": "main"}],
     [enter("main", M(VG="s1")), {"cmd": "inherit", "t": "w", "v": "main"}, ex("main"), {"cmd": "detype", "t": "w"}, {"cmd": "drop", "t": "w"}, {"cmd": "detype", "t": "w"}],
 ]
 
